@@ -408,6 +408,56 @@ Example ex_sequence :
       live_after [OpInvalidate [83;101;116;117;112]] (live ex_parsed), [0; 37; 78]).
 Proof. vm_compute. reflexivity. Qed.
 
+(* ---- stores with deleted chains are inside the theorems' domain ----
+   A deleted variable whose later versions are still there ("Gone": valid bit of the
+   first entry cleared, two data-only entries behind it, the first still linking to
+   the second), a live variable in between, and an entry with a broken extended
+   header carrying GUID index 3 although the table holds one GUID.  None of the
+   deleted entries is live (a link counts only when it comes from a valid entry) and
+   the index of the invalid entry does not make the table longer. *)
+Definition ex_dead_store : astore :=
+  mkAStore
+    [ ADead 6 32 (g3 ++ [71;111;110;101;0] ++ [1]);
+      AData 136 30 [2;2];
+      AFull 130 16777215 (GIndex 0) (NAscii [75;101;101;112]) [171;205];
+      AData 136 16777215 [3;3;3];
+      AFull 146 16777215 (GIndex 3) (NAscii [66;97;100]) [1;255;127] ]
+    7 [g1].
+
+Definition ex_dead_parsed : nstore := interp dec16_impl 255 ex_dead_store.
+
+Example ex_dead_hyps :
+  wf_store 255 ex_dead_store = true /\ chains_ok (s_entries ex_dead_parsed) /\
+  compact_fits enc16_impl 255 ex_dead_parsed /\ reparse_ok dec16_impl enc16_impl 255 ex_dead_parsed.
+Proof.
+  split; [vm_compute; reflexivity|].
+  split; [apply chains_okb_sound; vm_compute; reflexivity|].
+  split; [apply compact_fitsb_sound; vm_compute; reflexivity|].
+  apply reparse_okb_sound; vm_compute; reflexivity.
+Qed.
+
+(* Invalid, Invalid link (with its next offset kept), Full, Invalid link, Invalid; one table GUID; one live variable *)
+Example ex_dead_types :
+  parse_store dec16_impl 255 (emit 255 ex_dead_store) = Ok ex_dead_parsed /\
+  map v_type (s_entries ex_dead_parsed) = [0; 1; 4; 1; 0] /\
+  map v_nextoff (s_entries ex_dead_parsed) = [0; 62; 0; 0; 0] /\
+  s_guids ex_dead_parsed = [g1] /\
+  live ex_dead_parsed = [ (g1, [75;101;101;112], [171;205]) ].
+Proof. vm_compute. repeat split; reflexivity. Qed.
+
+Example ex_dead_roundtrip :
+  (do st <- parse_store dec16_impl 255 (emit 255 ex_dead_store); do st' <- asm_store enc16_impl 255 3 st; Ok (s_buf st'))
+  = Ok (emit 255 ex_dead_store).
+Proof. vm_compute. reflexivity. Qed.
+
+Example ex_dead_compact :
+  recompact 255 ex_dead_store =
+  Ok ([ (g1, [75;101;101;112], [171;205]) ], [ (g1, [75;101;101;112], [171;205]) ]) /\
+  (do st <- compact_store enc16_impl 255 3 ex_dead_parsed;
+   Ok (zlen (s_buf st), s_guids st, map v_type (s_entries st))) =
+  Ok (zlen (emit 255 ex_dead_store), [g1], [4]).
+Proof. vm_compute. split; reflexivity. Qed.
+
 (* ---------------------------------------------------------------------------------------- *)
 (* Kernel ties: the small pure helpers of pkg/uefi/nvram.go, as TRANSCRIBED FROM THE GO SOURCE on every run
    (translator/Kernels.sh -> Gen/GoKernels.v), equal the functions of the model (Proofs/KernelTieNvar.v).
